@@ -10,7 +10,7 @@ table = "| seed (seeded/<id>/) | breaks | caught by | history |\n|------|-------
 p = os.path.join(ROOT, "DESIGN.md")
 s = open(p).read()
 i = s.index("| seed")
-j = s.index("Pattern of the misses:")
+j = s.index("Pattern of the misses")
 s = s[:i] + table + s[j:]
 open(p, "w").write(s)
 print(len(rows), "seeds")
